@@ -926,7 +926,7 @@ def assemble(unit: dict, scratch: str, passname="A", drop_contracts=frozenset())
     def _needs_nest(f):
         sp0 = specs.get(f["key"])
         cand = f["key"] in sig_changed or (f["key"] not in locked_fns and known_fns and not (sp0 and (sp0.contract.strip() or sp0.trusted)))
-        return cand and re.search(r"\breturn\b", f["body"]) and f["key"] not in job.get("nest_returns", [])
+        return cand and (re.search(r"\breturn\b", f["body"]) or "?" in f["body"]) and f["key"] not in job.get("nest_returns", [])
     nest = sorted(f["key"] for f in tr["fns"] if _needs_nest(f))
     if nest:
         job["nest_returns"] = sorted(set(job.get("nest_returns", [])) | set(nest))
